@@ -60,6 +60,30 @@ theorem decorate_rules_as_modelled :
        "f.formatValue(0, typ, bytes, known, implied, false)", "f.decorate(typ, false, bytes == nil)"] :=
   ⟨rfl, rfl, rfl, rfl⟩
 
+/-- `Analyzer.convertType`, `case *astzed.TypeName`, as modelled by `convertType (.name n)`:
+    the analyzer's own (stream-scoped) table first, the shared context's typedefs only as a
+    fallback. -/
+theorem typename_lookup_as_modelled :
+    C02.convertTypeNameBody =
+      ["typ, ok := a[t.Name]",
+       "if !ok { named := zctx.LookupTypeDef(t.Name) if named == nil { return nil, fmt.Errorf(\"no such type name: %q\", t.Name) } typ = named }",
+       "return typ, nil"] := rfl
+
+/-- a bare type name bound in the reader's own table resolves to that binding whatever the
+    shared context says (another reader on the same context may have rebound the name). -/
+theorem name_lookup_prefers_stream_table (st : AState) (n : Name) (t : Ty)
+    (h : alookup n st.names = some t) : convertType st (.name n) = .ok (st, t) := by
+  simp [convertType, h]
+
+/-- … and only a name the reader has not bound itself is looked up in the context. -/
+theorem name_lookup_falls_back_to_context (st : AState) (n : Name) (t : Ty)
+    (h1 : alookup n st.names = none) (h2 : alookup n st.ctxdefs = some t) :
+    convertType st (.name n) = .ok (st, t) := by
+  simp [convertType, h1, h2]
+
+example : ∃ st : AState, alookup [120] st.names = some (.prim 9) ∧ alookup [120] st.ctxdefs = some (.prim 25) :=
+  ⟨{ names := [([120], .prim 9)], ctxdefs := [([120], .prim 25)] }, by decide⟩
+
 /-- every primitive name the formatter can print is read back as the same primitive
     (`PrimitiveName` and `LookupPrimitive` are inverse tables). -/
 theorem primitive_names_inverse :
